@@ -113,6 +113,21 @@ fn programs(tier: Tier) -> Vec<Prog> {
     for size in [0u64, 33, 320] {
         add(&format!("call-returndata({size})"), call_prog(size), 1);
     }
+    // many short return-data copies by the four call opcodes (round 8, same reason as the short copies above)
+    for (name, opc, has_value) in [("call", op::CALL, true), ("callcode", 0xf2u8, true), ("delegatecall", op::DELEGATECALL, false), ("staticcall", op::STATICCALL, false)] {
+        for (n, words) in [(6usize, 99u64), (9, 6)] {
+            let mut t = Vec::new();
+            for _ in 0..n {
+                t.extend([p(words * 32), p(0), p(0), p(0)]);
+                if has_value {
+                    t.push(p(0));
+                }
+                t.extend([o(op::CALLER), o(op::GAS), o(opc), o(op::POP)]);
+            }
+            t.extend([p(0), o(op::MLOAD), p(2), o(op::SSTORE)]);
+            add(&format!("{n}x{name}-returndata({words} words)"), assemble(&t), 7);
+        }
+    }
     add("idioms", idiom_prog(), 1);
     for c in corpus::load() {
         if c.name.starts_with("PackedEncodings") {
